@@ -404,12 +404,75 @@ def validate_before_mutate(rep, f):
     rep.floor("C13.c", n, 4)
 
 
+# DOM Level 3 Core 1.1.1 "The DOM Structure Model": which node types may be children of which
+_CONTENT = ["ELEMENT_NODE", "PROCESSING_INSTRUCTION_NODE", "COMMENT_NODE", "TEXT_NODE", "CDATA_SECTION_NODE", "ENTITY_REFERENCE_NODE"]
+HIERARCHY = {
+    "DOCUMENT_NODE": ["ELEMENT_NODE", "PROCESSING_INSTRUCTION_NODE", "COMMENT_NODE", "DOCUMENT_TYPE_NODE"],
+    "DOCUMENT_FRAGMENT_NODE": _CONTENT, "ENTITY_REFERENCE_NODE": _CONTENT, "ELEMENT_NODE": _CONTENT, "ENTITY_NODE": _CONTENT,
+    "ATTRIBUTE_NODE": ["TEXT_NODE", "ENTITY_REFERENCE_NODE"],
+    "DOCUMENT_TYPE_NODE": [], "PROCESSING_INSTRUCTION_NODE": [], "COMMENT_NODE": [], "TEXT_NODE": [], "CDATA_SECTION_NODE": [],
+    "NOTATION_NODE": [],
+}
+
+
+def hierarchy_rule(rep):
+    rep.rule("C13.e", "hierarchy table: DOMDocumentImpl::isKidOK's constant table kidOK[parent type], bit (1 << child type), equals "
+             "the structure model of DOM Level 3 Core 1.1.1 for all 12 x 12 (parent, child) node-type pairs (exhaustive; the "
+             "whitespace-text-under-document extension is outside the table), and the function indexes it by the parent's type "
+             "and tests the child's bit")
+    tu = os.path.join(core.REPO, "src/xercesc/dom/impl/DOMDocumentImpl.cpp")
+    g = core.run_xa([tu], tables=r"^kidOK$", flat=True)
+    t = g.table("kidOK")
+    en = g.enums.get("DOMNode::NodeType")
+    if not en:
+        raise AnalysisBroken("enum DOMNode::NodeType not found")
+    val = {n: v for n, v in en["items"]}
+    if set(val) != set(HIERARCHY):
+        raise AnalysisBroken("DOMNode::NodeType no longer has exactly the twelve DOM node types")
+    tab = t["v"]
+    n = 0
+    for p, kids in sorted(HIERARCHY.items()):
+        for c in sorted(HIERARCHY):
+            n += 1
+            got = val[p] < len(tab) and bool(tab[val[p]] & (1 << val[c]))
+            want = c in kids
+            if got != want:
+                rep.ob("C13.e", "kidOK[%s]/%s" % (p, c), False,
+                       "isKidOK's table %s a %s as child of a %s; DOM Core says it is %s" % (
+                           "allows" if got else "rejects", c, p, "allowed" if want else "not allowed"),
+                       "src/xercesc/dom/impl/DOMDocumentImpl.cpp:%s" % t.get("line", 0))
+    rep.count(n)
+    rep.ob("C13.e", "kidOK", True, "%d (parent, child) pairs agree with DOM Core" % n, "src/xercesc/dom/impl/DOMDocumentImpl.cpp:%s" % t.get("line", 0))
+    # use of the table
+    fn = [x for x in g.kind("ret") if x["_fn"]["q"] == "DOMDocumentImpl::isKidOK"]
+    uses = [s for x in fn for s in sx_walk(x["x"]) if isinstance(s, list) and len(s) == 4 and s[0] == "b" and s[1] == "&"
+            and s[2][0] == "x" and s[2][1] == ["g", "kidOK"] and s[3][0] == "b" and s[3][1] == "<<" and s[3][2] == ["i", 1]]
+    if not uses:
+        raise AnalysisBroken("DOMDocumentImpl::isKidOK no longer tests (kidOK[p] & 1 << ch) in its return expression")
+    decl = {x["name"]: x.get("init") for x in g.kind("local") if x["_fn"]["q"] == "DOMDocumentImpl::isKidOK"}
+    u = uses[0]
+    pi, ci = u[2][2], u[3][3]
+
+    def src(v):
+        i = decl.get(v[1]) if v[0] == "l" else None
+        for s in sx_walk(i or []):
+            if isinstance(s, list) and s and s[0] == "c" and s[1].endswith("::getNodeType"):
+                return s[2]
+        return None
+    sp, sc = src(pi), src(ci)
+    ok = sp is not None and sc is not None and sp[0] == "p" and sc[0] == "p" and sp[1] == 0 and sc[1] == 1
+    rep.ob("C13.e", "isKidOK/index", ok, "indexed by the parent's type, tested against the child's bit" if ok else
+           "DOMDocumentImpl::isKidOK indexes kidOK by %s and tests the bit of %s: parent and child are mixed up" % (
+               sx_str(sp) if sp else sx_str(pi), sx_str(sc) if sc else sx_str(ci)), "src/xercesc/dom/impl/DOMDocumentImpl.cpp")
+
+
 def run(rep):
     f = core.library_facts()
     rep.units.update(os.path.relpath(t, core.REPO) for t in f.tus)
     owner_rule(rep, f)
     guards_rule(rep, f)
     validate_before_mutate(rep, f)
+    hierarchy_rule(rep)
     from ..engines import arrays
     arrays.soh_rule(rep, f, "C13.d", lambda fn: "/dom/impl/" in fn["file"])
     diag.run(rep, f, "C13")
